@@ -34,6 +34,7 @@ def cfg : Cfg where
   fullCopyLo := fun n => Facts.C17.fullCopyLo n
   fullCopyHi := fun n => Facts.C17.fullCopyHi n
   fullWire := fun l => (Facts.C17.fullWire l).toNat
+  fullSeqAfterCheck := Facts.C17.fullSeqAfterCheck
   padEnvelope := Facts.C17.padOver
   padOf := fun last => (Facts.C17.padOf last).toNat
   padStrip := fun n => (Facts.C17.padStrip n).toNat
